@@ -1586,6 +1586,61 @@ def check_node_case(ctx, drv, case, mouts=None):
 
 
 # ------------------------------------------------------------------------------------------------
+# split window: restore_rngs resumes every selected stream at (original key, count before the split + 1), exactly
+# ------------------------------------------------------------------------------------------------
+
+
+def gen_restore_window(rng, force_squeeze=None):
+  squeeze = (rng.random() < 0.5) if force_squeeze is None else force_squeeze
+  return {'kind': 'nnx-restore-window', 'seed': rng.randrange(0, 6), 'other_seed': rng.randrange(6, 9), 'before': rng.randrange(0, 4),
+          'inside': rng.randrange(3, 6) if (squeeze and rng.random() < 0.7) else rng.randrange(0, 6), 'squeeze': squeeze,
+          'splits': 1 if squeeze else rng.randrange(2, 4), 'other_inside': rng.randrange(0, 3)}
+
+
+def check_restore_window(ctx, case):
+  """Independent bookkeeping, no model: stream `s` (selected) and stream `o` (not selected)."""
+  b, m = case['before'], case['inside']
+  try:
+    r = nnx.Rngs(s=case['seed'], o=case['other_seed'])
+    for _ in range(b):
+      r.s()
+    bk = nnx.split_rngs(r, splits=case['splits'], only='s', squeeze=case['squeeze'])
+    if case['squeeze']:
+      for _ in range(m):
+        r.s()
+    elif m:
+      @nnx.vmap(in_axes=(nnx.StateAxes({'s': 0, ...: None}),), out_axes=0)
+      def body(rr):
+        return tuple(jax.random.key_data(rr.s()) for _ in range(m))
+
+      body(r)
+    for _ in range(case['other_inside']):
+      r.o()
+    nnx.restore_rngs(bk)
+    key_s, cnt_s = kd(r.s.key.value), int(r.s.count.value)
+    key_o, cnt_o = kd(r.o.key.value), int(r.o.count.value)
+    nxt = [kd(r.s()) for _ in range(2)]
+  except Exception as e:
+    ctx.violation('nnx-restore-window-raises', f'split_rngs / restore_rngs window raised {type(e).__name__}', case)
+    return False
+  ctx.case(case, nontrivial=True)
+  ctx.count('restore_window', f"squeeze={case['squeeze']} inside>before+1={m > b + 1}")
+  base = jax.random.key(case['seed'])
+  want_next = [kd(jax.random.fold_in(base, np.uint32(b + 1 + i))) for i in range(2)]
+  if key_s != kd(base) or cnt_s != b + 1 or nxt != want_next:
+    ctx.violation(
+      'nnx-restore-does-not-resume-at-count-plus-one',
+      f'{b} draws, split_rngs(splits={case["splits"]}, squeeze={case["squeeze"]}), {m} draws inside, restore_rngs: the stream has count {cnt_s} '
+      f'(must be {b + 1}), key restored: {key_s == kd(base)}, next draws follow fold_in(key, {b + 1}+i): {nxt == want_next}', case,
+    )
+    return False
+  if key_o != kd(jax.random.key(case['other_seed'])) or cnt_o != case['other_inside']:
+    ctx.violation('nnx-restore-touches-unselected-stream', f'the unselected stream has count {cnt_o} after the window, it drew {case["other_inside"]} times', case)
+    return False
+  return True
+
+
+# ------------------------------------------------------------------------------------------------
 # histories of one stream (the machine `srun` of theorem nnx_no_replay_along_history)
 # ------------------------------------------------------------------------------------------------
 
@@ -1969,6 +2024,8 @@ def _run_case(ctx, drv, obj, rng=None):
     check_jit_alias(ctx, drv, case)
   elif kind == 'nnx-node':
     check_node_case(ctx, drv, case)
+  elif kind == 'nnx-restore-window':
+    check_restore_window(ctx, case)
   elif kind == 'linen-lift':
     check_lift_case(ctx, drv, case)
   elif kind == 'probe-jit-shape':
@@ -2145,6 +2202,11 @@ def run(ctx):
   ctx.sample(c)
   for c in node_cases:
     check_node_case(ctx, drv, c, mouts=mine())
+  ctx.sample(c)
+  for i in range(16 if not thorough else 200):
+    c = gen_restore_window(rng, force_squeeze=True if i < 4 else None)
+    note_compiles(0 if c['squeeze'] else 1)
+    check_restore_window(ctx, c)
   ctx.sample(c)
   for c in lift_cases:
     note_compiles(4)
